@@ -117,8 +117,13 @@ class FoldUnit:
             elif kind == 'assume':       # llvm.assume(icmp pred ty n, value) right after n's definition
                 hcount[0] += 1
                 hn = '%%verif.h%d' % hcount[0]
-                ins = ['  %s = icmp %s %s %s, %s' % (hn, h['pred'], h['ty'], h['n'], h['value']),
-                       '  call void @llvm.assume(i1 %s)' % hn]
+                src_n = h['n']
+                ins = []
+                if h.get('mask') is not None:
+                    ins.append('  %s.m = and %s %s, %d' % (hn, h['ty'], h['n'], h['mask']))
+                    src_n = hn + '.m'
+                ins += ['  %s = icmp %s %s %s, %s' % (hn, h['pred'], h['ty'], src_n, h['value']),
+                        '  call void @llvm.assume(i1 %s)' % hn]
                 if h.get('at_label') is not None:
                     lab = re.compile(r'^%s:' % re.escape(str(h['at_label'])))
                     k = next((j for j, l in enumerate(lines) if lab.match(l)), None)
